@@ -2175,8 +2175,19 @@ func (c *AsPathCondition) Option() MatchOption {
 func (c *AsPathCondition) Evaluate(path *Path, _ *PolicyOptions) bool {
 	if len(c.set.singleList) > 0 {
 		aspath := path.GetAsSeqList()
+		var members []uint32
 		for _, m := range c.set.singleList {
-			result := m.Match(aspath)
+			list := aspath
+			if m.mode == INCLUDE {
+				// "_65001_" is a regular expression over the rendered AS_PATH:
+				// it also finds the number inside AS_SET and confederation
+				// segments, which GetAsSeqList replaces by 0.
+				if members == nil {
+					members = path.getAsMembers()
+				}
+				list = members
+			}
+			result := m.Match(list)
 			if c.option == MATCH_OPTION_ALL && !result {
 				return false
 			}
